@@ -82,7 +82,8 @@ pub fn gen_algs(r: &mut Rng, want_supported: Option<bool>) -> Vec<i64> {
 }
 
 pub fn gen_cdata(r: &mut Rng) -> CData {
-    match r.below(5) {
+    match r.below(6) {
+        5 => CData::Stamped,
         0 => CData::Hash(gen_bytes_biased(r, 48)),
         1 => CData::Extra(
             (*r.pick(&[
@@ -100,8 +101,9 @@ pub fn gen_cdata(r: &mut Rng) -> CData {
 pub fn gen_idrefs(r: &mut Rng, max: usize) -> Vec<IdRef> {
     let n = r.usize(max + 1);
     (0..n)
-        .map(|_| match r.below(6) {
+        .map(|_| match r.below(7) {
             0 => IdRef::Unknown(r.bytes(16)),
+            6 => IdRef::NearMiss(r.below(4) as u32, r.below(6) as u8),
             1 => IdRef::NthOfOtherRp(r.below(4) as u32),
             2 => IdRef::Nth(r.below(6) as u32),
             _ => IdRef::NthOfRp(r.below(4) as u32),
@@ -154,6 +156,7 @@ pub fn gen_reg(r: &mut Rng, rp: u8) -> RegSpec {
         prf: None,
         prf_hashed: None,
         misc: if r.bool() { r.next_u64() } else { 0 },
+        via_json: if r.chance(1, 8) { 1 } else { 0 },
     }
 }
 
@@ -186,6 +189,7 @@ pub fn gen_mc(r: &mut Rng, rp_id: &str) -> McSpec {
         prf: None,
         via_trait: false,
         hmac_secret_mc: false,
+        names: if r.chance(1, 6) { r.range(1, 2) as u8 } else { 0 },
     }
 }
 
@@ -229,6 +233,7 @@ pub fn gen_prelude(r: &mut Rng, n: usize, counters: Option<bool>) -> Vec<PreCred
                 _ => Some(true),
             },
             hmac_len: if r.chance(1, 6) { *r.pick(&[48u8, 64]) } else { 0 },
+            key_layout: if r.chance(1, 8) { r.range(1, 3) as u8 } else { 0 },
         })
         .collect()
 }
